@@ -43,9 +43,10 @@ def main():
         res["confirmed"] = bool(res["patch_applies"] and "72 passed" in res["tests"] and r0.returncode == 0 and r1.returncode != 0)
         if benign:
             res["benign"] = True
-            res["demo_output_identical"] = r0.stdout == r1.stdout
+            cut = lambda t: t.split("=== NEW FEATURE ===")[0]      # a feature addition may show its new feature after this marker
+            res["demo_output_identical"] = cut(r0.stdout) == cut(r1.stdout)
             res["confirmed"] = bool(res["patch_applies"] and "72 passed" in res["tests"] and r0.returncode == 0 and r1.returncode == 0
-                                    and r0.stdout == r1.stdout)
+                                    and cut(r0.stdout) == cut(r1.stdout))
         res["checks"] = {}
         # a private copy of the Coq development and a private build directory: no lock shared with runs on /repo
         priv = "--shared" not in sys.argv
